@@ -222,6 +222,7 @@ where
             let mut tg = TypedGen::new(g, view, fl);
             tg.max_len = 3;
             tg.budget = 60;
+            tg.alt_kind_chance = (1, 3);
             if tg.g.chance(1, 3) {
                 tg.mutate_at = Some(tg.g.index(6));
             }
